@@ -218,6 +218,13 @@ pub fn run(ctx: &'static Ctx) {
             long.push((format!("n={} pattern {:?}", n, pat), V::A((0..n).map(|k| alpha[pat[k % 3]].clone()).collect())));
         }
     }
+    // several filtered-out entries with identifiers of large magnitude (anything accumulated over them)
+    for ty in ["x", "private-key", ""] {
+        for (a, b) in [(1i64 << 30, 1i64 << 30), (i32::MAX as i64, i32::MAX as i64), (i32::MIN as i64, i32::MIN as i64), (i32::MIN as i64, -1), (i32::MAX as i64, 1), ((1 << 30) + 7, (1 << 30) - 7)] {
+            long.push((format!("two filtered entries {} and {} of type {:?}", a, b, ty), V::A(vec![param(a, ty), param(-7, PUBLIC_KEY), param(b, ty), param(-8, PUBLIC_KEY)])));
+            long.push((format!("three filtered entries {} {} {} of type {:?}", a, b, a, ty), V::A(vec![param(a, ty), param(b, ty), param(a, ty), param(-8, PUBLIC_KEY)])));
+        }
+    }
     {
         use crate::refmodel::REGISTERED_ALGS;
         long.push(("all registered algorithms".into(), V::A(REGISTERED_ALGS.iter().map(|a| param(*a, PUBLIC_KEY)).collect())));
@@ -285,14 +292,29 @@ pub fn run(ctx: &'static Ctx) {
         for suffix in ["\u{0}\u{0}", "  ", "-key", "public-key"] {
             names.push(format!("{}{}", PUBLIC_KEY, suffix));
         }
+        // same length and the same first k / last k characters, everything between replaced
+        for k in 1..=4usize {
+            for fill in ['x', '-', 'k'] {
+                let mut x = base.clone();
+                for c in x.iter_mut().take(base.len() - k).skip(k) {
+                    *c = fill;
+                }
+                names.push(x.iter().collect());
+            }
+        }
+        names.push("pay-by-key".into());
+        names.push("private-key".into());
+        names.push("public_key".into());
         names.sort();
         names.dedup();
         names.retain(|n| n != PUBLIC_KEY && n.len() <= 32);
         let (nr, pr2) = (&names, &pctx);
-        sweep(ctx, "near-miss type strings", (names.len() * pctx.len()) as u64, "[{alg: EdDSA, type: <near miss>}, {alg: ES256, type: public-key}] for every 1-edit neighbour and padded variant of the type string", move |idx, l| {
+        sweep(ctx, "near-miss type strings", (names.len() * pctx.len() * 2) as u64, "[{alg: EdDSA, type: <near miss>}, {alg: ES256, type: public-key}] and [{ES256, public-key}, {EdDSA, <near miss>}, {EdDSA, public-key}] for every 1-edit neighbour, padded variant and same-outline variant of the type string", move |idx, l| {
+            let second_form = idx % 2 == 1;
+            let idx = idx / 2;
             let name = &nr[(idx as usize) / pr2.len()];
             let c = &pr2[(idx as usize) % pr2.len()];
-            let list = V::A(vec![param(-8, name), param(-7, PUBLIC_KEY)]);
+            let list = if second_form { V::A(vec![param(-7, PUBLIC_KEY), param(-8, name), param(-8, PUBLIC_KEY)]) } else { V::A(vec![param(-8, name), param(-7, PUBLIC_KEY)]) };
             let wire = if c.path.is_empty() { list.clone() } else { treewalk::replaced(&c.wire, &c.path, list.clone()) };
             l.nontrivial += 1;
             l.bump("near-miss type");
@@ -431,6 +453,25 @@ pub fn run(ctx: &'static Ctx) {
             flong.push((format!("U+{:04X} followed by {}", c as u32, base), V::A(vec![V::t(&format!("{}{}", c, base)), V::t("packed")])));
         }
     }
+    // two and three unknown names on a length grid (anything that accumulates the names): every pair
+    // of lengths 0..=72, and triples whose running sums pass 32 / 64 / 128 / 256
+    for a in 0..=72usize {
+        for b in 0..=72usize {
+            flong.push((format!("unknown names of {} and {} bytes", a, b), V::A(vec![V::t(&fill_text(a, 3)), V::t(&fill_text(b, 4)), V::t("packed")])));
+        }
+    }
+    for total in [32usize, 64, 128, 256] {
+        for a in [1usize, 8, 16, 24] {
+            for b in [1usize, 7, 15, 23] {
+                for d in 0..=3usize {
+                    if total + 1 >= a + b + d {
+                        let c = total + 1 - a - b - d; // a + b + c ranges over total-2 ..= total+1
+                        flong.push((format!("unknown names of {}, {} and {} bytes", a, b, c), V::A(vec![V::t(&fill_text(a, 3)), V::t("none"), V::t(&fill_text(b, 4)), V::t(&fill_text(c, 5))])));
+                    }
+                }
+            }
+        }
+    }
     let (flr, fcr) = (&flong, &fctx2);
     sweep(ctx, "long attestation format lists", (flong.len() * fctx2.len()) as u64, "lists of 12, 13, 64 entries with packed / none at every ordered pair of positions among unknown names; lists of 254..=1000 entries; unknown names of 31..=300 bytes", move |idx, l| {
         let (what, list) = &flr[(idx as usize) / fcr.len()];
@@ -443,6 +484,44 @@ pub fn run(ctx: &'static Ctx) {
             l.fail(ctx, idx, v, || case_json(&c.target, &wire, json!({"context": c.label, "list": what})));
         }
     });
+    // the filters keep no memory: every ordered pair of short lists decoded back to back
+    {
+        let mut items: Vec<(String, Box<dyn Fn() -> String + Sync>)> = Vec::new();
+        let mk = |alphabet: Vec<V>, ctxs: Vec<Ctxt>, items: &mut Vec<(String, Box<dyn Fn() -> String + Sync>)>| {
+            let n = alphabet.len();
+            let mut lists: Vec<Vec<usize>> = vec![vec![]];
+            for a in 0..n {
+                lists.push(vec![a]);
+                for b in 0..n {
+                    lists.push(vec![a, b]);
+                }
+            }
+            for c in ctxs {
+                for l in &lists {
+                    let list = V::A(l.iter().map(|i| alphabet[*i].clone()).collect());
+                    let wire = if c.path.is_empty() { list.clone() } else { treewalk::replaced(&c.wire, &c.path, list.clone()) };
+                    let t = c.target.clone();
+                    let label = format!("{} {:?}", c.label, l);
+                    items.push((label, Box::new(move || t.observe_bytes(&t.bytes(&wire)).show())));
+                }
+            }
+        };
+        let pc: Vec<Ctxt> = pctx.iter().filter(|c| !c.label.contains("sent first")).take(2).cloned().chain(pctx.iter().filter(|c| c.label.starts_with("alone")).cloned()).collect();
+        mk(alpha[..4].to_vec(), pc, &mut items);
+        let fc: Vec<Ctxt> = fctx2.iter().filter(|c| !c.label.contains("sent first")).take(1).cloned().chain(fctx2.iter().filter(|c| c.label.starts_with("alone")).cloned()).collect();
+        mk(vec![V::t("packed"), V::t("none"), V::t("tpm"), V::U(7)], fc, &mut items);
+        for w in ["tpm", "packed", ""] {
+            items.push((format!("AttestationStatementFormat::try_from({:?})", w), Box::new(move || format!("{:?}", ctap_types::ctap2::AttestationStatementFormat::try_from(w).map(<&str>::from)))));
+        }
+        {
+            let t = Target::Alone("filteredParams");
+            for (label, list) in [("params [7]", V::A(vec![V::U(7)])), ("params [{alg: -7}]", V::A(vec![V::M(vec![(V::t("alg"), V::int(-7))])])), ("params [foreign, text]", V::A(vec![param(-7, "x"), V::t("y")])), ("params [ES256, 7]", V::A(vec![param(-7, PUBLIC_KEY), V::U(7)])), ("params [EdDSA, text]", V::A(vec![param(-8, PUBLIC_KEY), V::t("y")])), ("params [ES256, {alg: -8}]", V::A(vec![param(-7, PUBLIC_KEY), V::M(vec![(V::t("alg"), V::int(-8))])]))] {
+                let t = t.clone();
+                items.push((label.to_string(), Box::new(move || t.observe_bytes(&t.bytes(&list)).show())));
+            }
+        }
+        pair_histories(ctx, P, "list decode call pairs", "every ordered pair of decodes of lists of length <= 2 (4 parameter letters; packed / none / tpm / a non-text entry) in a request and stand-alone, of six ill-formed parameter lists (failing at once / after one accepted entry) and of direct format lookups: the second result must not depend on the first", &items);
+    }
     ctx.require_outcomes(&["GetInfo list", "long list", "long format list"]);
     ctx.sample(json!({"list": "[unknown x 11, EdDSA, ES256]", "context": "MakeCredential pubKeyCredParams", "oracle": "[-8, -7]"}));
     ctx.sample(json!({"list": "[tpm, none, packed, none]", "context": "GetAssertion attestationFormatsPreference", "oracle": "known = [none, packed], unknown = true"}));
